@@ -97,7 +97,7 @@ package gossip
 //@   loop 1 invariant[known] forall j int {metadata[j]} :: 0 <= j && j < len(metadata) ==> metadata[j].ID in s.nodes && metadata[j] == s.nodes[metadata[j].ID].NodeMetadata
 
 //@ contract (*Gossip).Leave
-//@   serves C11 C17 C20
+//@   serves C11 C17 C20 C18
 //@   ensures[left] g.state.nodes[g.state.localID].Left
 //@   ensures[told-or-error] result == nil && gLeaveTried > old(gLeaveTried) ==> gLeaveOK > old(gLeaveOK)
 //@   ensures[bounded] gLeaveOK - old(gLeaveOK) <= 4
